@@ -35,10 +35,11 @@ Proof.
   2:{ intros H. apply reply_path_ok_reply in H. congruence. }
   destruct (hook (f_verdict f SPostReadCallBody)) as [|s|c] eqn:Eh.
   - destruct h as [k|]; [|exfalso; apply Hinv; reflexivity].
-    destruct (f_handler f) as [hs|c] eqn:Ehd; cbn; intros [H|H]; try discriminate.
+    destruct (f_handler f) as [hs|c|c] eqn:Ehd; cbn; intros [H|H]; try discriminate.
     + apply reply_path_ok_reply in H. destruct (st_ok hs) eqn:E.
       * split; [exists hs; auto | exists k; left; reflexivity].
       * rewrite E in H. discriminate.
+    + exfalso. revert H. apply write_once_not_ok_reply. reflexivity.
     + exfalso. revert H. apply write_once_not_ok_reply. reflexivity.
   - intros H. apply reply_path_ok_reply in H. cbn in H.
     apply hook_veto_code in Eh. congruence.
@@ -112,7 +113,7 @@ Proof.
     destruct (st_ok stat); [|apply Hrp].
     destruct (hook (f_verdict f SPostReadCallBody)); [|apply Hrp|apply Hwo].
     destruct h; [|apply Hrp].
-    destruct (f_handler f); cbn; intros [H|H]; try discriminate; revert H; [apply Hrp|apply Hwo]. }
+    destruct (f_handler f); cbn; intros [H|H]; try discriminate; revert H; [apply Hrp|apply Hwo|apply Hwo]. }
   assert (Hh : forall stat h pc, In (Reply q (Some s)) (handle eff_write f stat h pc) -> st_code s <> 0).
   { intros stat h pc. unfold handle. destruct (is_not_allowed _); [intros [H|[]]; discriminate|].
     rewrite Hc. apply Hhc. }
